@@ -10,7 +10,7 @@ from ..absint import Interp
 from ..libmodels import Models
 from ..stencil import FV
 from ..pipeline import ASSUMED_POSITIVE
-from ..dv import DV, tags_of, IdxAny
+from ..dv import DV, tags_of, IdxAny, NONZERO_STEPS, is_nonzero_step_test
 from ..dvrun import explore, DVSession
 
 RULES = {
@@ -111,7 +111,7 @@ def nanmask(ctx, lim):
         orig = DV.isnan_
         DV.isnan_ = lambda self: False if self.note == 'finite f(z0)' else orig(self)
         try:
-            ex = explore(ctx.repo, body, pinned={'(np.abs(step) > 0).all()': True})
+            ex = explore(ctx.repo, body, pinned=NONZERO_STEPS)
         finally:
             DV.isnan_ = orig
         label = 'Limit/z.shape=%s%s/singular at %s/full_output=%s' % (shape, ' (transposed view)' if transposed else '', sorted(nan_at), full_output)
@@ -146,7 +146,7 @@ def nanmask(ctx, lim):
 
 def make_exact(repo):
     models = Models()
-    I = Interp(repo, models, branch_oracle=lambda i, node, fr, v: True if ast.unparse(node) == '(np.abs(step) > 0).all()' else None)
+    I = Interp(repo, models, branch_oracle=lambda i, node, fr, v: True if is_nonzero_step_test(i, node, fr, v) else None)
     models.bind(I)
     ndarr.POSITIVE_ATOMS.clear()
     ndarr.POSITIVE_ATOMS.update(ASSUMED_POSITIVE)
@@ -268,7 +268,7 @@ def kinds(ctx, lim):
                 return ndarr.ew1(one, z) if isinstance(z, Arr) else one(z)
             d = C(f, num_steps=9, **kw)
             return d(s.x_array((2,), xk))
-        ex = explore(ctx.repo, body, pinned={'(np.abs(step) > 0).all()': True})
+        ex = explore(ctx.repo, body, pinned=NONZERO_STEPS)
         bad = [{'raises': exc.exc_name, 'message': exc.msg[:100], 'path': ', '.join('%s=%s' % (d[1][:25], d[0]) for d in dec)}
                for dec, r, exc in ex.paths if exc is not None]
         # the value returned is the complex limit itself (a numpy array is complex as soon as one element is): no projection
